@@ -46,9 +46,9 @@ type C16Case struct {
 	HasB     bool `json:"has_b"`
 	HasEmpty bool `json:"has_empty"` // a set with an empty selector is cached
 	// ExprA / ExprB: the selector of set A / B is written with matchExpressions only (app In [..]) - same meaning
-	ExprA bool `json:"expr_a,omitempty"`
-	ExprB bool `json:"expr_b,omitempty"`
-	Events   []Ev `json:"events"`
+	ExprA  bool `json:"expr_a,omitempty"`
+	ExprB  bool `json:"expr_b,omitempty"`
+	Events []Ev `json:"events"`
 }
 
 func (c C16Case) Summary() interface{} { return c }
